@@ -42,7 +42,7 @@ E = {
                 props=["C03"], opts={"gen": 4.0, "start_gen": 0.9, "upd": 0.3, "regen": 0.2, "proj": 0.2, "masked": 0.2}, focus={}),
     "C06": dict(title="backward requests undo edits exactly", strength="partial",
                 modules=["GenjaxVerif.Props.C06"],
-                theorems=["C06_leaf_roundtrip_partial", "C06_backward_structure", "C06_refuted", "C06_switch_backward_unreliable"],
+                theorems=["C06_leaf_roundtrip_partial", "C06_backward_structure", "C06_refuted", "C06_switch_backward_is_the_branchs"],
                 props=["C06"], opts={"upd": 4.0, "bwd": 1.0, "regen": 0.2, "proj": 0.1, "max_ops": 4}, focus={}),
     "C08": dict(title="change tags are sound: NoChange really means unchanged", strength="partial",
                 modules=["GenjaxVerif.Props.C09", "GenjaxVerif.Props.C05"],
